@@ -161,6 +161,11 @@ def sym_copeland(args):
             return
         conj = [S[x] > S[y] if lv[x] < lv[y] else S[x] < S[y] if lv[x] > lv[y] else S[x] == S[y] for x, y in itertools.combinations(range(n), 2)]
         fs, fv = cons.copeland_scores, cons.copeland_victories
+        want = {Element(ds.names[x]) for x in range(n)}
+        if set(fs.keys()) != want or set(fv.keys()) != want:
+            ctx._ensure_model()
+            out.append(pay(ctx.model, "feature dictionaries are not keyed by exactly the universe", "features"))
+            return
         for x in range(n):
             el = Element(ds.names[x])
             conj.append(fork.term(fs[el]) == S[x])
@@ -242,6 +247,8 @@ def replay(p):
         ok = (S[x] > S[y]) if lv[x] < lv[y] else (S[x] < S[y]) if lv[x] > lv[y] else S[x] == S[y]
         if not ok:
             return True, f"{cons} but Copeland scores {S}"
+    if set(cons.copeland_scores.keys()) != {Element(x) for x in names} or set(cons.copeland_victories.keys()) != {Element(x) for x in names}:
+        return True, f"feature dictionaries keyed by {sorted(str(e) for e in cons.copeland_scores)} / {sorted(str(e) for e in cons.copeland_victories)}, universe {names}"
     for x in names:
         if abs(cons.copeland_scores[Element(x)] - S[x]) > 1e-9 or list(cons.copeland_victories[Element(x)]) != C[x]:
             return True, f"features of {x}: {cons.copeland_scores[Element(x)]} {list(cons.copeland_victories[Element(x)])}, definition {S[x]} {C[x]}"
